@@ -393,6 +393,7 @@ func init() {
 		e.RunFCChecks()
 		statelessPremise(c, true)
 		premiseLocalRules(c, core.PkgLayers)
+		unitTolerance(c)
 		c.R.Rule("gradients of W, B and x: compositional over C01, C02 (UnSqueeze, MatMul, SumAlong, Add) and C07; the C07 obligations of the expansions FC uses are re-run here and carry known finding D2 (parameter gradients divided by the batch size)")
 		RunOps(c, OpFilter{Methods: []string{"Broadcast"}, Keep: func(rule, construct string) bool { return isGradRule(rule) && isBroadcastConstruct(construct) }})
 	}, 10, core.PkgLayers))
@@ -487,6 +488,8 @@ func init() {
 		e.RunTensorEntryChecks(3)
 		e.RunAccessorTotality()
 		e.RunResetChecks()
+		// a random constructor that may draw more than once per element contains a rejection loop without a bound
+		e.RunRandomDrawChecks()
 		e.RunLossChecks()
 		e.RunActivationChecks(2)
 		e.RunFCChecks()
@@ -496,7 +499,7 @@ func init() {
 		e.RunInitializerChecks(2)
 		fileOps(c, e, OpFilter{Keep: func(rule, construct string) bool {
 			return rule == "A4.pre" || rule == "A4.shape" || strings.HasPrefix(rule, "S6.") || rule == "S7.no-store-on-error"
-		}})
+		}, KeepF: func(f engine.Finding) bool { return f.Rule == "S9c.draws" && f.What == "draw-count" }})
 		c.R.Count("entry.abstract_paths", e.Paths)
 		c.R.Min("entry.abstract_paths", 300)
 		for fn := range e.Funcs {
@@ -563,6 +566,7 @@ func init() {
 		e.RunToleranceCheck("cputensor.(*CPUTensor).Eq/tolerance")
 		statelessPremise(c, true)
 		premiseLocalRules(c, core.PkgLosses)
+		unitTolerance(c)
 		c.R.NotDecide("predictions exactly at the two clipping bounds (excluded by the quantifier); floating-point rounding")
 	}, 30))
 	register("C15", "activation gradients equal the derivative of the activation, also in a chain", componentCheck(func(e *engine.OpEngine, c *Ctx) {
@@ -576,6 +580,7 @@ func init() {
 		e.RunToleranceCheck("cputensor.(*CPUTensor).Eq/tolerance")
 		statelessPremise(c, true)
 		premiseLocalRules(c, core.PkgActs)
+		unitTolerance(c)
 		c.R.Rule("A3.finite at the extremes: with a unit chain factor and |x| <= 700 the interval of the gradient contains no NaN (0·Inf / Inf-Inf in the backward pass)")
 		c.R.NotDecide("finiteness for symbolic chain factors is decided on [-50,50]; rounding")
 	}, 30))
@@ -592,6 +597,7 @@ func init() {
 		e.RunFCChecks()
 		e.RunSGDChecks(1)
 		statelessPremise(c, true)
+		unitTolerance(c)
 		RunOps(c, OpFilter{Methods: []string{"Broadcast"}, Keep: func(rule, construct string) bool { return isGradRule(rule) && isBroadcastConstruct(construct) }})
 	}, 8))
 }
